@@ -18,3 +18,13 @@ Definition chk_C11_fs (c o : value) : bool :=
   | VL [VI _; VB _; VB _; VB _; VI closed; VI _] => as_bool closed
   | _ => true
   end.
+
+(* family "sockcopy" (an application copying the request body out of the socket with a QIODeviceCopier, possibly closing
+   the socket from its own slot or writing to a failing destination): besides running to its end without a crash, what
+   reaches the destination is a prefix of the body and completion is signalled at most once *)
+Definition chk_C11_sockcopy (c o : value) : bool :=
+  chk_C11 c o &&
+  match c, o with
+  | VL (VB _ :: VB body :: _), VL [VB got; VI fin; VI _] => is_prefix got body && (fin <=? 1)%Z
+  | _, _ => true
+  end.
